@@ -63,6 +63,9 @@ func (s *StaticKMS) DecryptKey(ctx context.Context, encKey []byte) ([]byte, erro
 		return s.Crypto.Decrypt(encKey, kekBytes)
 	})
 	if err != nil {
+		// the key may have been decrypted before the failure, don't leave it behind
+		internal.MemClr(keyBytes)
+
 		return nil, err
 	}
 
